@@ -624,3 +624,8 @@ pub mod tests {
         assert_eq!(h4, TABLE_V[prover.1][3]);
     }
 }
+
+#[cfg(kani)]
+mod verif_kani {
+    include!(concat!(env!("IPA_VERIF_DIR"), "/kani/dzkp_field.rs"));
+}
